@@ -165,7 +165,8 @@ def projects(draw: Any, with_star: bool = True, with_class_imports: bool = True)
         own = [b['name'] for b in body if b['k'] in ('class', 'func', 'var')]
         allv = None
         if has_all and own:
-            allv = draw(st.lists(st.sampled_from(own), min_size=1, max_size=len(own), unique=True))
+            # (an empty __all__ is a list too: a star import of the module then binds nothing)
+            allv = draw(st.lists(st.sampled_from(own), min_size=0 if draw(st.integers(0, 2)) == 0 else 1, max_size=len(own), unique=True))
         mods.append({'name': m, 'is_pkg': is_pkg(layout, m), 'body': body, 'all': allv})
         own_defs[m] = own
         # later defined names shadow imported ones of the same name: only names bound once are importable / required
